@@ -100,6 +100,17 @@ class Mod:
         return None
 
 
+def _normalise(tree: ast.AST) -> None:
+    """Drop no-op statements (`pass` next to real statements) so rules see the same shape."""
+    for node in ast.walk(tree):
+        for field in ("body", "orelse", "finalbody"):
+            b = getattr(node, field, None)
+            if isinstance(b, list) and len(b) > 1 and all(isinstance(x, ast.stmt) for x in b):
+                kept = [x for x in b if not isinstance(x, ast.Pass)]
+                if kept and len(kept) != len(b):
+                    setattr(node, field, kept)
+
+
 class Repo:
     """Parsed view of src/gtirb_rewriting in the working tree."""
 
@@ -126,6 +137,7 @@ class Repo:
                 tree = ast.parse(source, filename=str(path))
             except SyntaxError as exc:
                 raise AnalysisError(f"cannot parse {path}: {exc}") from exc
+            _normalise(tree)
             mod = Mod(
                 name=name,
                 path=path,
